@@ -401,11 +401,41 @@ func runC20(c *Ctx, scAny any) {
 		ckclient.Main()
 	})
 	// proxy client application
+	// a handshake that fails once (one-connection-per-stream mode, direct
+	// transport): the first transport connection is reset right after the hello;
+	// that connection's retry may fall back to another signature (a documented
+	// compatibility measure), every later session must follow the configuration
+	// again. The first proxied connection runs alone so that the reset
+	// connection and its retry are transport connections 0 and 1.
+	nconn := 0
+	if v, ok := sc.get("NumConn"); ok {
+		fmt.Sscanf(v, "%d", &nconn)
+	}
+	handshakeFault := sc.Seed%5 == 2 && !cdn && nconn <= 0 && sc.Streams >= 2
+	if handshakeFault {
+		seen := 0
+		c.Net.OnLink = func(l *simnet.Link) {
+			if l.Tag == "front" || l.Name == "front" {
+				if seen == 0 {
+					l.Script = append(l.Script, simnet.ScriptedFault{Dir: 0, AfterWrite: 1, Kind: "reset"})
+				}
+				seen++
+			}
+		}
+	}
+	firstDone := false
 	pending := sc.Streams
 	for i := 0; i < sc.Streams; i++ {
+		i := i
 		simsync.Go("h:app", func() {
 			defer func() { pending-- }()
+			if i == 0 {
+				defer func() { firstDone = true }()
+			}
 			awaitListener()
+			for handshakeFault && i > 0 && !firstDone {
+				Sleep(50 * time.Millisecond)
+			}
 			ad := &simnet.Dialer{Net: c.Net, LocalIP: "10.0.7.2", Tag: "app"}
 			conn, err := ad.Dial("tcp", local.LocalAddr)
 			if err != nil {
@@ -435,6 +465,9 @@ func runC20(c *Ctx, scAny any) {
 	simsync.Go("h:silent", func() {
 		defer func() { silentDone = true }()
 		awaitListener()
+		for handshakeFault && !firstDone {
+			Sleep(50 * time.Millisecond)
+		}
 		ad := &simnet.Dialer{Net: c.Net, LocalIP: "10.0.7.3", Tag: "app"}
 		conn, err := ad.Dial("tcp", local.LocalAddr)
 		if err != nil {
@@ -577,6 +610,10 @@ func runC20(c *Ctx, scAny any) {
 			if !okName(ch.SNI) {
 				c.Fail("config", "server-name", "server name %q on the wire is none of the configured %q", ch.SNI, names)
 				return
+			}
+			if handshakeFault && i == 1 {
+				c.Probe("handshake_retry_after_fault")
+				continue // the retry of the reset connection: the fallback signature is allowed
 			}
 			if !reflect.DeepEqual(normSuites(ch.CipherSuites), wantSuites) || !reflect.DeepEqual(normExts(ch.Exts), wantExts) {
 				c.Fail("config", "browser-sig", "BrowserSig=%s: the hello's cipher suites/extensions are not those of the %s profile", sig, sig)
